@@ -94,10 +94,19 @@ type regionSpec struct {
 	lenVar         string
 	vars, varTypes []string
 	results        []string
+	// alternatively the region is delimited by comments: the statements of one block that follow the comment
+	// containing `from`, up to the comment containing `to` (or the first loop); `alias` names selector
+	// expressions that stand for a free variable (list.count -> count)
+	from, to string
+	alias    map[string]string
 }
 
 var regions = []regionSpec{
-	{"fnGetRange", "getRangeClamp", "n", []string{"start", "end", "n"}, []string{"int", "int", "int"}, []string{"start", "end"}},
+	{fn: "fnGetRange", leanName: "getRangeClamp", lenVar: "n", vars: []string{"start", "end", "n"}, varTypes: []string{"int", "int", "int"}, results: []string{"start", "end"}},
+	{fn: "dataStoreCommand.lrange", leanName: "lrangeClamp", from: "convert negative indexes", to: "find the start item",
+		vars: []string{"start", "stop", "count"}, varTypes: []string{"int", "int", "int"}, results: []string{"start", "stop"}, alias: map[string]string{"list.count": "count"}},
+	{fn: "dataStoreCommand.ltrim", leanName: "ltrimClamp", from: "convert negative list position args", to: "",
+		vars: []string{"start", "stop", "count"}, varTypes: []string{"int", "int", "int"}, results: []string{"start", "stop"}, alias: map[string]string{"list.count": "count"}},
 }
 
 var guards = []guardSpec{
@@ -108,8 +117,9 @@ var guards = []guardSpec{
 // ---------------------------------------------------------------- translation
 
 type env struct {
-	tuple   string // what a field method "returns": the tuple of its fields
-	recv    string // receiver name of a field method ("" otherwise): recv.f reads and writes the field f
+	alias   map[string]string // selector expressions read as free variables
+	tuple   string            // what a field method "returns": the tuple of its fields
+	recv    string            // receiver name of a field method ("" otherwise): recv.f reads and writes the field f
 	vars    map[string]ty
 	funcs   map[string]*sig
 	result  ty
@@ -205,6 +215,11 @@ func (ev *env) expr(e ast.Expr, want ty) (string, ty) {
 		}
 		return lit(x.Value, want, x.Pos()), want
 	case *ast.SelectorExpr:
+		if id, ok := x.X.(*ast.Ident); ok && ev.alias != nil {
+			if v, ok := ev.alias[id.Name+"."+x.Sel.Name]; ok {
+				return ln(v), ev.vars[v]
+			}
+		}
 		if id, ok := x.X.(*ast.Ident); ok && ev.recv != "" && id.Name == ev.recv {
 			t, ok := ev.vars[x.Sel.Name]
 			if !ok {
@@ -657,6 +672,8 @@ func translateFieldMethod(fd *ast.FuncDecl, m fieldMethodSpec, funcs map[string]
 		strings.Join(m.fields, ", "), m.leanName, strings.Join(params, " "), strings.Join(rts, " × "), body), nil
 }
 
+var regionFile *ast.File
+
 func findRegion(body *ast.BlockStmt, lenVar string) []ast.Stmt {
 	var found []ast.Stmt
 	ast.Inspect(body, func(n ast.Node) bool {
@@ -694,6 +711,56 @@ func findRegion(body *ast.BlockStmt, lenVar string) []ast.Stmt {
 	return found
 }
 
+// findCommentRegion: the statements of the innermost block that follow the comment containing `from`, up to the
+// comment containing `to` (when given) or the first loop
+func findCommentRegion(file *ast.File, fd *ast.FuncDecl, from, to string) []ast.Stmt {
+	var fromPos, toPos token.Pos
+	for _, cg := range file.Comments {
+		if cg.Pos() < fd.Body.Pos() || cg.End() > fd.Body.End() {
+			continue
+		}
+		for _, c := range cg.List {
+			if fromPos == 0 && strings.Contains(c.Text, from) {
+				fromPos = c.Pos()
+			} else if fromPos != 0 && toPos == 0 && to != "" && strings.Contains(c.Text, to) {
+				toPos = c.Pos()
+			}
+		}
+	}
+	if fromPos == 0 {
+		return nil
+	}
+	var found []ast.Stmt
+	ast.Inspect(fd.Body, func(n ast.Node) bool {
+		b, ok := n.(*ast.BlockStmt)
+		if !ok {
+			return true
+		}
+		var out []ast.Stmt
+		for _, st := range b.List {
+			if st.Pos() < fromPos {
+				continue
+			}
+			if toPos != 0 && st.Pos() > toPos {
+				break
+			}
+			if _, isFor := st.(*ast.ForStmt); isFor {
+				break
+			}
+			if _, isRange := st.(*ast.RangeStmt); isRange {
+				break
+			}
+			out = append(out, st)
+		}
+		// the innermost block that directly contains statements after the comment wins
+		if len(out) > 0 && b.Pos() < fromPos && fromPos < b.End() {
+			found = out
+		}
+		return true
+	})
+	return found
+}
+
 func translateRegion(fd *ast.FuncDecl, r regionSpec, funcs map[string]*sig) (out string, err error) {
 	defer func() {
 		if rec := recover(); rec != nil {
@@ -704,11 +771,16 @@ func translateRegion(fd *ast.FuncDecl, r regionSpec, funcs map[string]*sig) (out
 			panic(rec)
 		}
 	}()
-	stmts := findRegion(fd.Body, r.lenVar)
-	if len(stmts) == 0 {
-		return "", fmt.Errorf("%s: no block starting with `%s := len(…)` found", r.fn, r.lenVar)
+	var stmts []ast.Stmt
+	if r.from != "" {
+		stmts = findCommentRegion(regionFile, fd, r.from, r.to)
+	} else {
+		stmts = findRegion(fd.Body, r.lenVar)
 	}
-	ev := &env{vars: map[string]ty{}, funcs: funcs}
+	if len(stmts) == 0 {
+		return "", fmt.Errorf("%s: the region (%s%s) was not found", r.fn, r.lenVar, r.from)
+	}
+	ev := &env{vars: map[string]ty{}, funcs: funcs, alias: r.alias}
 	var params, rts []string
 	for i, v := range r.vars {
 		ev.vars[v] = types[r.varTypes[i]]
@@ -724,8 +796,12 @@ func translateRegion(fd *ast.FuncDecl, r regionSpec, funcs map[string]*sig) (out
 	ev.tuple = "(" + strings.Join(rnames, ", ") + ")"
 	body := ev.block(stmts, 1)
 	pos := fset.Position(fd.Pos())
-	return fmt.Sprintf("/-- the index arithmetic of `%s` (%s): %s after the statements that follow `%s := len(…)` -/\ndef %s %s : %s :=\n  %s\n",
-		r.fn, filepath.Base(pos.Filename), strings.Join(r.results, ", "), r.lenVar, r.leanName, strings.Join(params, " "), strings.Join(rts, " × "), body), nil
+	where := "`" + r.lenVar + " := len(…)`"
+	if r.from != "" {
+		where = "the comment \"" + r.from + "\""
+	}
+	return fmt.Sprintf("/-- the index arithmetic of `%s` (%s): %s after the statements that follow %s -/\ndef %s %s : %s :=\n  %s\n",
+		r.fn, filepath.Base(pos.Filename), strings.Join(r.results, ", "), where, r.leanName, strings.Join(params, " "), strings.Join(rts, " × "), body), nil
 }
 
 // guard extraction ----------------------------------------------------------------------------------------
@@ -866,12 +942,13 @@ func main() {
 	files, _ := filepath.Glob(filepath.Join(repo, "*.go"))
 	sort.Strings(files)
 	decls := map[string]*ast.FuncDecl{}
+	fileOf := map[*ast.FuncDecl]*ast.File{}
 	for _, f := range files {
 		b := filepath.Base(f)
 		if strings.HasSuffix(b, "_test.go") || strings.HasPrefix(b, "verif_") {
 			continue
 		}
-		af, err := parser.ParseFile(fset, f, nil, 0)
+		af, err := parser.ParseFile(fset, f, nil, parser.ParseComments)
 		if err != nil {
 			fmt.Fprintln(os.Stderr, err)
 			os.Exit(1)
@@ -889,6 +966,7 @@ func main() {
 					}
 				}
 				decls[key] = fd
+				fileOf[fd] = af
 			}
 		}
 	}
@@ -932,6 +1010,7 @@ func main() {
 			errs = append(errs, fmt.Sprintf("function %s no longer exists", r.fn))
 			continue
 		}
+		regionFile = fileOf[fd]
 		out, err := translateRegion(fd, r, funcs)
 		if err != nil {
 			errs = append(errs, err.Error())
